@@ -341,6 +341,10 @@ func (e *Env) object(obj types.Object) TV {
 			e.fail("%s is not a global", o.Name())
 		}
 		comp, sort := vc.globalComp(g)
+		if _, isStruct := o.Type().Underlying().(*types.Struct); isStruct {
+			// struct-valued package variables are denoted by their address
+			return TV{S: vc.lvalPtr(&Lval{comp: comp, sort: sort, ref: ""}), Sort: sInt, Ty: types.NewPointer(o.Type())}
+		}
 		return TV{S: vc.cur(e.st, comp), Sort: sort, Ty: o.Type()}
 	case *types.Nil:
 		return nilTV
